@@ -159,3 +159,20 @@ def parse_elf(data):
         segs.append({"type": p_type, "flags": p_flags, "offset": p_offset, "vaddr": p_vaddr, "paddr": p_paddr, "filesz": p_filesz, "memsz": p_memsz, "align": p_align, "data": data[p_offset : p_offset + p_filesz]})
     res["segments"] = segs
     return res
+
+
+def check_loadable(segments):
+    """gABI, program header: 'loadable process segments must have congruent values
+    for p_vaddr and p_offset, modulo the page size'; p_align is 0, 1 or a power of
+    two; p_filesz <= p_memsz.  Returns message or None."""
+    for i, g in enumerate(segments):
+        if g["type"] != PT_LOAD:
+            continue
+        al = g["align"]
+        if al & (al - 1):
+            return "PT_LOAD segment %d: p_align 0x%x is not a power of two" % (i, al)
+        if g["filesz"] > g["memsz"]:
+            return "PT_LOAD segment %d: p_filesz %d > p_memsz %d" % (i, g["filesz"], g["memsz"])
+        if al > 1 and g["vaddr"] % al != g["offset"] % al:
+            return "PT_LOAD segment %d: p_offset 0x%x and p_vaddr 0x%x are not congruent modulo p_align 0x%x" % (i, g["offset"], g["vaddr"], al)
+    return None
